@@ -366,6 +366,42 @@ pub async fn run_behaviour(id: &Value, b: &Value) -> Vec<Value> {
                 if script.is_empty() {
                     script.push(cur_now);
                 }
+                // Continuation files: where the model's cycle ends early (it refuses a document), a
+                // faulty client that goes on must find a plausible, correctly signed remainder, so
+                // that "it wrongly succeeded" is observable and not masked by a missing file. These
+                // files are only ever requested by a client that deviates from the model.
+                {
+                    let mut rootdoc = e["shipped"].clone();
+                    let mut tsd: Option<Value> = None;
+                    let mut snd: Option<Value> = None;
+                    let mut have_tg = false;
+                    for f in &hist[i + 1..j] {
+                        match f["ev"].as_str().unwrap_or("") {
+                            "root" if f["s"]["k"] == "root" => rootdoc = f["s"].clone(), // the newest root shown
+                            "ts" if f["s"]["k"] == "ts" => tsd = Some(f["s"].clone()),
+                            "sn" if f["s"]["k"] == "sn" => snd = Some(f["s"].clone()),
+                            "tg" => have_tg = true,
+                            _ => {}
+                        }
+                    }
+                    let cons = rootdoc["cons"].as_bool().unwrap_or(false);
+                    if let Some(tsv) = &tsd {
+                        let pv = tsv["pin"]["v"].as_u64().unwrap_or(0);
+                        if snd.is_none() && pv > 0 && !files.iter().any(|(n, _)| n.ends_with("snapshot.json")) {
+                            let d = json!({"k":"sn","v":pv,"exp":tsv["exp"],"len":1,"b":1,"signers":rootdoc["sn"],
+                                           "pin":{"v":pv,"h":{"k":"none"},"len":0}});
+                            files.push((req_name(&ctx, &json!(["sn", if cons { pv } else { 0 }])), d.clone()));
+                            snd = Some(d);
+                        }
+                    }
+                    if let Some(snv) = &snd {
+                        let pv = snv["pin"]["v"].as_u64().unwrap_or(0);
+                        if !have_tg && pv > 0 && !files.iter().any(|(n, _)| n.ends_with("targets.json")) {
+                            let d = json!({"k":"tg","v":pv,"exp":snv["exp"],"len":1,"b":1,"signers":rootdoc["tg"]});
+                            files.push((req_name(&ctx, &json!(["tg", if cons { pv } else { 0 }])), d));
+                        }
+                    }
+                }
                 t.clear();
                 let mut table: HashMap<String, Value> = HashMap::new();
                 for (name, s) in &files {
